@@ -31,6 +31,8 @@ from .fold import (Folder, TOP, UNIT, INT_BITS, mk_int, mk_bool, _Abort, _State,
 NONE = ("adt", "std::option::Option", 0, "None", ())
 SYMK = ("sbyte", "sbits", "sbit", "tagint")
 ARITHK = ("lin", "bv")
+from . import gfdom
+GFK = gfdom.GFK
 
 
 def some(v):
@@ -112,6 +114,7 @@ class PEval(Folder):
         self.arith = False  # symbolic arithmetic on payload bytes (encoders): off unless a rule asks for it
         self.atom_ranges = {}
         self.sym_steps = 0
+        self.gf = None  # gfdom.GF(): GF(2^8)-linear forms over free block bytes (C07.R4); off unless a rule asks for it
         self.summaries = {}  # callee path -> model, installed by a rule for one evaluation (opaque, separately verified callees)
 
     # loops are allowed: termination is guaranteed by the step budget, and every
@@ -147,6 +150,9 @@ class PEval(Folder):
             elif isinstance(e, dict) and ("idx" in e or "cidx" in e):
                 if "idx" in e:
                     iv = self._load_local(st, fidx, e["idx"])
+                    if self.gf is not None and iv != TOP and iv[0] in ("gfl", "gflog"):
+                        v = gfdom.lookup(self, v, iv)
+                        continue
                     if iv == TOP or iv[0] != "int":
                         return TOP
                     k = iv[2]
@@ -335,6 +341,11 @@ class PEval(Folder):
                         return mk_int("usize", tgt[1])
                     if tgt[0] == "symslice":
                         return mk_int("usize", tgt[2] - tgt[1])
+        elif k == "cast" and self.gf is not None and rv.get("kind") == "IntToInt" and self._peek_kind(st, rv["op"]) in GFK:
+            return gfdom.cast(self, self._operand(st, rv["op"]), rv["ty"])
+        elif k == "un" and rv["op"] == "Not" and self.gf is not None and self._peek_kind(st, rv["a"]) == "gfz":
+            a = self._operand(st, rv["a"])
+            return ("gfz", a[1], not a[2])
         elif k == "cast" and self.arith and rv.get("kind") == "IntToInt":
             from .fold import INT_BITS as IB, fits
             v = self._operand(st, rv["op"])
@@ -381,6 +392,10 @@ class PEval(Folder):
             if p["proj"] and p["proj"][0] == "deref" and "deref" in p["proj"][1:]:
                 return self._ref_multi(st, p)
         return super()._rvalue(st, rv, dest)
+
+    def _peek_kind(self, st, op):
+        v = self._operand(st, op)
+        return v[0] if v != TOP else None
 
     def _ref_multi(self, st, p):
         fidx = len(st.frames) - 1
@@ -440,6 +455,8 @@ class PEval(Folder):
         return cache.get(b)
 
     def _switch(self, st, t, v):
+        if v != TOP and v[0] == "gfz" and self.gf is not None:
+            return gfdom.switch(self, st, t, v)
         if v != TOP and v[0] == "sbit":
             return self._sym_switch(st, t, v)
         return super()._switch(st, t, v)
@@ -530,6 +547,8 @@ class PEval(Folder):
         kb = b[0] if b != TOP else None
         if ka == "fnaddr" and kb == "fnaddr" and op in ("Eq", "Ne"):
             return mk_bool((a[1] == b[1]) == (op == "Eq"))
+        if self.gf is not None and (ka in GFK or kb in GFK):
+            return gfdom.binop(self, op, a, b)
         if self.arith and (ka in ARITHK or kb in ARITHK or ka == "sbyte" or kb == "sbyte"):
             return self._arith_binop(op, a, b)
         if ka in SYMK or kb in SYMK:
